@@ -1148,11 +1148,13 @@ func (r *WALSegmentReader) Next() bool {
 	entryType := lv[0]
 	length := binary.BigEndian.Uint32(lv[1:5])
 
-	b := *(getBuf(int(length)))
-	defer putBuf(&b)
-
-	// read the compressed block and decompress it
-	n, err = io.ReadFull(r.r, b[:length])
+	// The length is not trusted before the bytes are there: the tail of a segment torn
+	// by a crash holds arbitrary bytes, and a buffer of the size they spell (up to 4 GiB)
+	// must not be allocated for an entry that then turns out to be truncated.
+	bp := getBuf(0)
+	defer putBuf(bp)
+	n, err = readFullGrowing(r.r, bp, int(length))
+	b := *bp
 	if err != nil {
 		r.err = err
 		return true
@@ -1195,6 +1197,37 @@ func (r *WALSegmentReader) Next() bool {
 
 	return true
 }
+
+// readFullGrowing reads exactly n bytes from r into *buf, like io.ReadFull, but grows the
+// buffer as the bytes arrive (by at most walReadChunk beyond what has been read) instead of
+// allocating n bytes up front.
+func readFullGrowing(r io.Reader, buf *[]byte, n int) (int, error) {
+	b := (*buf)[:0]
+	for len(b) < n {
+		want := n - len(b)
+		if want > walReadChunk {
+			want = walReadChunk
+		}
+		if cap(b)-len(b) < want {
+			nb := make([]byte, len(b), 2*cap(b)+want)
+			copy(nb, b)
+			b = nb
+		}
+		m, err := io.ReadFull(r, b[len(b):len(b)+want])
+		b = b[:len(b)+m]
+		if err != nil {
+			*buf = b
+			if err == io.EOF && len(b) > 0 {
+				err = io.ErrUnexpectedEOF
+			}
+			return len(b), err
+		}
+	}
+	*buf = b
+	return len(b), nil
+}
+
+const walReadChunk = 1 << 20
 
 // Read returns the next entry in the reader.
 func (r *WALSegmentReader) Read() (WALEntry, error) {
